@@ -208,6 +208,35 @@ pub fn golden_histories() -> Vec<(String, History)> {
             },
         ));
     }
+    // H5: long keys; deleted ones leave free pieces on the two largest key free lists (the
+    // 896-byte class and the shared list of 1024 bytes and more), which stay there at close
+    {
+        let keys: Vec<Key> = (0..14u32).map(|i| Key::P { len: [780u32, 800, 870, 1000, 1500, 2000, 40][i as usize % 7] + i, seed: 1200 + i }).collect();
+        let nk = keys.len() as u32;
+        let mut ops = Vec::new();
+        for i in 0..nk {
+            ops.push(Op::Put { k: i, v: Val::P { len: 5 + i, seed: 1300 + i } });
+        }
+        for i in [1u32, 4, 8, 11] {
+            ops.push(Op::Del { k: i });
+        }
+        out.push((
+            "bytes-longkeys-t8".to_string(),
+            History {
+                maps: vec![MapSpec {
+                    name: "m".into(),
+                    kt: Kt::Bytes,
+                    params: Params::plain(Buckets::Capacity(4)),
+                    keys,
+                    late: false,
+                }],
+                ops,
+                obs: Obs::default(),
+                excluded: 0,
+                quiet_prefix: 0,
+            },
+        ));
+    }
     out
 }
 
@@ -258,7 +287,7 @@ pub fn golden_names() -> Vec<String> {
     golden_histories().into_iter().map(|x| x.0).collect()
 }
 
-fn load_golden(root: &Path, name: &str) -> Result<([Vec<u8>; 3], Expected, History), Failure> {
+pub(crate) fn load_golden(root: &Path, name: &str) -> Result<([Vec<u8>; 3], Expected, History), Failure> {
     let d = golden_dir(root).join(name);
     let files = read_files(&d, "m").map_err(|e| Failure::new("infra", None, format!("golden image {name} unreadable: {e}")))?;
     let exp: Expected = serde_json::from_str(
@@ -272,14 +301,14 @@ fn load_golden(root: &Path, name: &str) -> Result<([Vec<u8>; 3], Expected, Histo
     Ok((files, exp, h))
 }
 
-fn exp_model(exp: &Expected) -> BTreeMap<Vec<u8>, Vec<u8>> {
+pub(crate) fn exp_model(exp: &Expected) -> BTreeMap<Vec<u8>, Vec<u8>> {
     exp.contents
         .iter()
         .map(|(k, v)| (unhex(k).unwrap(), unhex(v).unwrap()))
         .collect()
 }
 
-fn put_files(dir: &Path, files: &[Vec<u8>; 3]) -> Result<(), Failure> {
+pub(crate) fn put_files(dir: &Path, files: &[Vec<u8>; 3]) -> Result<(), Failure> {
     let names = crate::exec::file_names("m");
     for i in 0..3 {
         std::fs::write(dir.join(&names[i]), &files[i]).map_err(|e| Failure::new("infra", None, format!("write: {e}")))?;
@@ -543,7 +572,7 @@ impl Prop for C12 {
         "C12"
     }
     fn rule(&self) -> String {
-        "16 golden images (5 key types x {inserts only / deletes+overwrites+re-inserts with non-empty free lists / large slots with a free large slot}; tables of 8, 128 and 1024 buckets; plus a DbString map whose keys are not text: invalid UTF-8, multi-byte characters, NULs, the empty key, sitting inside chains) written by a build of the PINNED commit and committed with their expected contents and key placement. Per image: (1) the independent decoder (own placement hash, own vu64) recovers exactly expected.json incl. each key's bucket; (2) the current build opens it (with other parameters than at creation): len, every key, deleted keys, full iteration, statistics; (3) files byte-identical after that read-only use; (5) the current build re-executes the image's history and the fresh image is decoded by the documented layout: same contents, same placement, clean structure and tiling (free-list heads at their documented offsets); byte identity with the golden files is reported as a label, not demanded; (4) 300 (thorough: 3000) seeded random continuation histories per image (updates, flush/sync, iteration, batches, clean reopen) against the model seeded from expected.json with decode + tiling checks at every sync and close. evaluations = static image checks + continuations. Non-trivial: a continuation that overwrites or deletes a golden-era record; distinct by case digest."
+        "17 golden images (5 key types x {inserts only / deletes+overwrites+re-inserts with non-empty free lists / large slots with a free large slot}; tables of 8, 128 and 1024 buckets; plus a DbString map whose keys are not text: invalid UTF-8, multi-byte characters, NULs, the empty key, sitting inside chains; and a DbBytes map with keys of 780-2000 bytes of which four were deleted, so that the key file's two largest free lists are non-empty) written by a build of the PINNED commit and committed with their expected contents and key placement. Per image: (1) the independent decoder (own placement hash, own vu64) recovers exactly expected.json incl. each key's bucket; (2) the current build opens it (with other parameters than at creation): len, every key, deleted keys, full iteration, statistics; (3) files byte-identical after that read-only use; (5) the current build re-executes the image's history and the fresh image is decoded by the documented layout: same contents, same placement, clean structure and tiling (free-list heads at their documented offsets); byte identity with the golden files is reported as a label, not demanded; (4) 300 (thorough: 3000) seeded random continuation histories per image (updates, flush/sync, iteration, batches, clean reopen) against the model seeded from expected.json with decode + tiling checks at every sync and close. evaluations = static image checks + continuations. Non-trivial: a continuation that overwrites or deletes a golden-era record; distinct by case digest."
             .to_string()
     }
     fn assumptions(&self) -> Vec<String> {
